@@ -16,7 +16,7 @@ import unicodedata
 
 from btclib import bip32, bip85
 from btclib.exceptions import BTClibValueError
-from btclib.mnemonic import bip39, electrum, entropy, slip39
+from btclib.mnemonic import bip39, dispatch, electrum, entropy, slip39
 from btclib.mnemonic.mnemonic import BIP39_LANGUAGE_FILES, WORDLISTS, indexes_from_mnemonic, mnemonic_from_indexes
 
 from . import common, shared
@@ -206,6 +206,101 @@ def _i_bip85_bip39(key, words, xprv, lang, index):
     return "ok " + nats(indexes_from_mnemonic(bip85.mnemonic_from_root_key(xprv, int(words), lang, int(index)), lang))
 
 
+_WORD_INDEX: dict = {}
+
+
+def word_index(lang):
+    """word -> index of a BIP39 language, built from the list itself (not through btclib's lookup)."""
+    if lang not in _WORD_INDEX:
+        _WORD_INDEX[lang] = {w: i for i, w in enumerate(WORDLISTS.wordlist(lang))}
+    return _WORD_INDEX[lang]
+
+
+def lang_view(m, lang):
+    """(nwords, known, indexes in `lang`) of a sentence, independently of btclib's lookups."""
+    words = [unicodedata.normalize("NFKD", w) for w in m.split()]
+    wi = word_index(lang)
+    known = all(w in wi for w in words)
+    return len(words), known, ([wi[w] for w in words] if known else [])
+
+
+def _electrum_version(m):
+    try:
+        return electrum.version_from_mnemonic(m)[0]
+    except BTClibValueError:
+        return "-"
+
+
+def dispatch_line(m, lang):
+    n, known, idx = lang_view(m, lang)
+    slip = 1 if dispatch._slip39_seed_type(m) else 0
+    return f"dispatch.all {lang} {slip} {_electrum_version(m)} {n} {1 if known else 0} {nats(idx)} {hx(m.encode())}"
+
+
+def _i_dispatch_all(lang, slip, el, nwords, known, idx, sentence):
+    m = unhx(sentence).decode()
+    if dispatch_line(m, lang) != f"dispatch.all {lang} {slip} {el} {nwords} {known} {idx} {sentence}":
+        return "bad-line"
+    b = dispatch._bip39_seed_type(m, lang)
+    al = dispatch.all_seed_types_from_mnemonic(m, lang)
+    return f"ok {b or '-'} {','.join(al) or '-'} {dispatch.seed_type_from_mnemonic(m, lang) or '-'}"
+
+
+def _i_generate(secret, pw, ident, ext, e, gt, groups, ems, group_rp, *rest):
+    secret, pw = unhx(secret), unhx(pw).decode()
+    ident, ext, e, gt = int(ident), ext == "1", int(e), int(gt)
+    gl = unnats(groups)
+    grp = [(gl[i], gl[i + 1]) for i in range(0, len(gl) - 1, 2)]
+    if slip39._feistel(secret, pw, e, ident, ext, decrypt=False) != unhx(ems):
+        return "bad-line"
+    n_group_rnd = len(rest) - len(grp)
+    queue = [ident.to_bytes(2, "big")]
+    if gt >= 2:
+        queue += [unhx(x) for x in rest[:n_group_rnd]] + [unhx(group_rp)]
+    for (mt, _mc), tok in zip(grp, rest[n_group_rnd:]):
+        rp, rnd = tok.split("|")
+        if mt >= 2:
+            queue += [unhx(x) for x in rnd.split(",") if x] + [unhx(rp)]
+    it = iter(queue)
+    ms = slip39.mnemonics_from_master_secret(secret, grp, gt, pw, e, ext, lambda k: next(it))
+    return "ok " + ";".join("/".join(nats(_slip_idx(m)) for m in row) for row in ms)
+
+
+def generate_line(rng, secret, pw, ext, e, gt, grp):
+    """run the real generator once with a recording source; the line replays its transcript."""
+    src = Source(rng)
+    try:
+        slip39.mnemonics_from_master_secret(secret, grp, gt, pw, e, ext, src)
+    except BTClibValueError:
+        pass
+    log = list(src.log)
+    if not log:
+        log = [common.rand_bytes(rng, 2)]
+    ident = int.from_bytes(log[0], "big") & 0x7FFF
+    pos = 1
+
+    def take(k):
+        nonlocal pos
+        out = log[pos:pos + k]
+        pos += len(out)
+        return out
+    group_rnd, group_rp = [], b""
+    if 2 <= gt <= len(grp) <= 16:
+        group_rnd = take(gt - 2)
+        group_rp = (take(1) or [b""])[0]
+    toks = []
+    for mt, mc in grp:
+        rnd, rp = [], b""
+        if 2 <= mt <= mc <= 16 and pos < len(log):
+            rnd = take(mt - 2)
+            rp = (take(1) or [b""])[0]
+        toks.append(hx(rp) + "|" + ",".join(hx(r) for r in rnd))
+    ems = slip39._feistel(secret, pw, e, ident, ext, decrypt=False)
+    return (f"slip39.generate {hx(secret)} {hx(pw.encode())} {ident} {1 if ext else 0} {e} {gt} "
+            f"{nats(x for g in grp for x in g)} {hx(ems)} {hx(group_rp)}" +
+            "".join(" " + hx(r) for r in group_rnd) + "".join(" " + t for t in toks))
+
+
 IMPL = {
     "gf.mul": _i_gf_mul, "gf.div": _i_gf_div, "slip39.interp": _i_interp, "slip39.split": _i_split,
     "slip39.recover": _i_recover, "slip39.polymod": _i_polymod, "slip39.checksum": _i_checksum,
@@ -214,7 +309,7 @@ IMPL = {
     "entropy.from_idx": _i_from_idx, "bip39.idx": _i_bip39_idx, "bip39.entropy": _i_bip39_entropy,
     "bip39.seed": _i_bip39_seed, "electrum.seed": _i_electrum_seed, "electrum.type": _i_electrum_type,
     "electrum.idx": _i_electrum_idx, "electrum.bits": _i_electrum_bits, "bip85.entropy": _i_bip85_entropy,
-    "bip85.bip39": _i_bip85_bip39,
+    "bip85.bip39": _i_bip85_bip39, "dispatch.all": _i_dispatch_all, "slip39.generate": _i_generate,
 }
 
 
@@ -439,8 +534,14 @@ def _o_slip39_codec(w):
         sh = slip39.Share(f[0], bool(f[1]), f[2], f[3], f[4], f[5], f[6], f[7], bytes.fromhex(f[8]))
     except BTClibValueError:
         return True, "share refused at construction"
-    m = slip39.mnemonic_from_share(sh)
-    back = slip39.share_from_mnemonic(m)
+    try:
+        m = slip39.mnemonic_from_share(sh)
+    except BTClibValueError as ex:
+        return False, f"valid share with a {len(sh.value)}-byte value is not encodable: {ex}"
+    try:
+        back = slip39.share_from_mnemonic(m)
+    except BTClibValueError as ex:
+        return False, f"the mnemonic of a valid share with a {len(sh.value)}-byte value ({len(m.split())} words) is refused: {ex}"
     n = len(m.split())
     want_words = 4 + -(-8 * len(sh.value) // 10) + 3
     return (back == sh and n == want_words), f"{n} words, round trip {'ok' if back == sh else 'FAILED'}"
@@ -463,15 +564,54 @@ def _o_bip85(w):
     return True, path
 
 
-ORACLES = {"wordlist.bijection": _o_wordlist, "bip39.roundtrip": _o_bip39_roundtrip,
+def _o_dispatch(w):
+    """for the NAMED language: "" if a word is unknown, else "bip39" iff the checksum of THAT language's indexes
+    is right (independent SHA-256), else "bip39_wordlist"; the plural / singular entry points agree with it."""
+    m = w["m"]
+    for lang in w["langs"]:
+        n, known, idx = lang_view(m, lang)
+        if n == 0 or not known:
+            want = ""
+        else:
+            ref = _bip39_ref_valid(idx)
+            want = "bip39" if ref and ref[0] else "bip39_wordlist"
+        got = dispatch._bip39_seed_type(m, lang)
+        if got != want:
+            return False, f"lang={lang}: '{m}' is reported as '{got}', its {lang} indexes {idx} say '{want}'"
+        al = dispatch.all_seed_types_from_mnemonic(m, lang)
+        b = [x for x in al if x.startswith("bip39")]
+        if b != ([want] if want else []):
+            return False, f"lang={lang}: all_seed_types {al} disagrees with '{want}'"
+        if dispatch.seed_type_from_mnemonic(m, lang) != (al[0] if al else ""):
+            return False, f"lang={lang}: seed_type is not the first of {al}"
+        if want == "bip39" and bip39.entropy_from_mnemonic(m, lang) != _bits_of(ref[1]):
+            return False, f"lang={lang}: entropy differs from the independent decoding"
+    return True, f"{len(w['langs'])} languages"
+
+
+def _guarded(name, fn):
+    """an exception leaving an oracle is a failed oracle with the exception as the observation."""
+    def run(w):
+        try:
+            return fn(w)
+        except Exception as ex:  # noqa: BLE001
+            return False, f"{name}: {type(ex).__name__} raised on the witness: {str(ex)[:300]}"
+    return run
+
+
+ORACLES = {"dispatch.lang": _o_dispatch, "wordlist.bijection": _o_wordlist, "bip39.roundtrip": _o_bip39_roundtrip,
            "bip39.substitution": _o_bip39_substitution, "electrum.roundtrip": _o_electrum_roundtrip,
            "slip39.set": _o_slip39_set, "slip39.substitution": _o_slip39_substitution,
            "slip39.codec": _o_slip39_codec, "bip85.hmac": _o_bip85}
+ORACLES = {k: _guarded(k, v) for k, v in ORACLES.items()}
 
 
 # ------------------------------------------------------------------ generators
-def rand_share_fields(rng, valid=True):
-    n = rng.choice([16, 16, 18, 20, 24, 32, 32, 34, 40, 64])
+ALL_SIZES = list(range(16, 66, 2))
+
+
+def rand_share_fields(rng, valid=True, n=None):
+    n = n or rng.choice([16, 32] + ALL_SIZES)
     g = rng.randrange(1, 17)
     f = [rng.getrandbits(15), rng.randrange(2), rng.randrange(16), rng.randrange(16), rng.randrange(1, g + 1), g,
          rng.randrange(16), rng.randrange(1, 17)]
@@ -617,15 +757,18 @@ def run(ctx):
     ctx.stream("slip39.rs1024", lines)
 
     enc_lines = []
-    for _ in range(ctx.n(150)):
-        f = rand_share_fields(rng, valid=rng.random() < 0.8)
+    for j in range(ctx.n(150)):
+        # every even value size 16..64 comes round (valid shares), plus random / invalid ones
+        f = rand_share_fields(rng, valid=True, n=ALL_SIZES[j % len(ALL_SIZES)]) if j % 2 == 0 else \
+            rand_share_fields(rng, valid=rng.random() < 0.6)
         enc_lines.append("slip39.encode " + fields_line(f))
+        ctx.count("slip39.value_bytes", str(len(f[8]) // 2))
         ctx.check("slip39.codec", {"share": f})
         try:
             sh = slip39.Share(f[0], bool(f[1]), f[2], f[3], f[4], f[5], f[6], f[7], bytes.fromhex(f[8]))
+            idx = _slip_idx(slip39.mnemonic_from_share(sh))
         except BTClibValueError:
             continue
-        idx = _slip_idx(slip39.mnemonic_from_share(sh))
         dec_lines.append(f"slip39.decode {nats(idx)}")
         # every-position single-word substitutions (oracle), a sample of them through the model too
         subs = [[p, rng.randrange(1024)] for p in range(len(idx)) for _ in range(3 if thorough else 1)]
@@ -686,7 +829,43 @@ def run(ctx):
             sel = pick[0]
             master_lines.append(f"slip39.master {hx((w['pw'] + 'x').encode())} " +
                                 ";".join(nats(_slip_idx(sets[g][m])) for g, m in sel))
+    # every even master-secret size 16..64: 1-of-1 and 2-of-3 through the oracle, five sizes through the model
+    for n in ALL_SIZES:
+        for groups, gt in (([[1, 1]], 1), ([[2, 3]], 1)):
+            w = {"secret": common.rand_bytes(rng, n).hex(), "groups": groups, "gt": gt, "pw": "pw",
+                 "ext": bool(rng.randrange(2)), "seed": rng.getrandbits(32)}
+            sels = all_subsets(w, rng, 64)
+            w["sels"] = [[list(x) for x in s_] for s_ in sels]
+            ctx.check("slip39.set", w)
+            ctx.count("slip39.secret_bytes", str(n))
+            if groups == [[2, 3]] and n in (24, 34, 44, 54, 64):
+                try:
+                    sets = make_set(w)
+                    master_lines.append(f"slip39.master {hx(b'pw')} " + ";".join(
+                        nats(_slip_idx(sets[0][m])) for m in rng.sample(range(3), 2)))
+                except BTClibValueError:
+                    pass          # reported by the oracle above with the concrete witness
     ctx.stream("slip39.master", master_lines)
+
+    # --- mnemonics_from_master_secret: entropy transcript replayed through the two-level split of the model ----
+    lines = []
+    for j in range(ctx.n(25)):
+        groups, gt = rand_config(rng, 4, 6)
+        if j % 5 == 4:
+            k = rng.randrange(4)
+            if k == 0:
+                gt = rng.choice([0, len(groups) + 1])
+            elif k == 1:
+                groups[0] = [groups[0][1] + 1, groups[0][1]]
+            elif k == 2:
+                groups[-1] = [1, 3]
+            else:
+                groups = [[1, 1]] * 17
+        secret = common.rand_bytes(rng, ALL_SIZES[j % len(ALL_SIZES)])
+        pw = "".join(chr(rng.randrange(32, 127)) for _ in range(rng.randrange(0, 6)))
+        lines.append(generate_line(rng, secret, pw, bool(rng.randrange(2)), rng.randrange(0, 2), gt,
+                                   [tuple(g) for g in groups]))
+    ctx.stream("slip39.generate", lines)
 
     # --- entropy.py digit conversions ---------------------------------------------------------------------
     lines = []
@@ -800,4 +979,66 @@ def run(ctx):
         k = _child_key(root, f"m/83696968h/39h/{li}h/{words}h/{index}h")
         lines.append(f"bip85.bip39 {hx(k)} {words} {root} {lang} {index}")
     lines.append(f"bip85.bip39 {hx(k)} 13 {root} en 0")
+    # child keys whose 32-byte private key STARTS WITH A ZERO BYTE (one path in 256): BIP85 hashes all 32 bytes
+    root = bip32.rootxprv_from_seed(common.rand_bytes(rng, 32))
+    hits, i = 0, 0
+    while hits < ctx.n(2, 6) and i < 6000:
+        i += 1
+        path = f"m/83696968h/128169h/32h/{i}h"
+        key = _child_key(root, path)
+        if key[0] == 0:
+            hits += 1
+            ctx.check("bip85.hmac", {"xprv": root, "path": path})
+            lines.append(f"bip85.entropy {hx(key)} {root} {path}")
+    ctx.count("bip85.zero_leading_keys", "found", hits)
     ctx.stream("bip85", lines)
+
+    # --- dispatch: the BIP39 verdict is about the language the caller names ---------------------------------
+    lines = []
+    pairs = []
+    for a, b in itertools.combinations(BIP39_LANGS, 2):
+        common_words = [x for x in WORDLISTS.wordlist(a) if x in word_index(b)]
+        if len(common_words) >= 12:
+            pairs.append((a, b, common_words))
+    ctx.count("dispatch.language_pairs", ",".join(f"{a}/{b}:{len(sh)}" for a, b, sh in pairs))
+    for a, b, common_words in pairs:
+        # sentences spelled from the shared words, searched until every (valid in a, valid in b) class is met
+        want = {(True, False): 2, (False, True): 2, (False, False): 1, (True, True): 1}
+        for _ in range(ctx.n(4000, 20000)):
+            if not any(want.values()):
+                break
+            nw = rng.choice([12, 12, 12, 15, 24])
+            m = " ".join(rng.choice(common_words) for _ in range(nw))
+            va = _bip39_ref_valid(lang_view(m, a)[2])[0]
+            vb = _bip39_ref_valid(lang_view(m, b)[2])[0]
+            if want.get((va, vb), 0) > 0:
+                want[(va, vb)] -= 1
+                other = next(x for x in BIP39_LANGS if x not in (a, b))
+                ctx.check("dispatch.lang", {"m": m, "langs": [a, b, other]})
+                ctx.count("dispatch.classes", f"{a}/{b}:{int(va)}{int(vb)}")
+                for lang in (a, b, other):
+                    lines.append(dispatch_line(m, lang))
+    for cls in ("en/fr:10", "en/fr:01"):
+        if not ctx.hist.get("dispatch.classes", {}).get(cls):
+            raise common.HarnessError(f"dispatch generator found no sentence of class {cls}")
+    for lang in BIP39_LANGS:
+        try:
+            m = bip39.mnemonic_from_entropy(common.rand_bytes(rng, rng.choice([16, 20, 24, 28, 32])), lang)
+        except BTClibValueError:
+            continue
+        ws = m.split()
+        for c in (m, " ".join(ws[:-1]), " ".join(ws[:-1] + [ws[0]]), " ".join(ws + ws[:1]), ""):
+            ctx.check("dispatch.lang", {"m": c, "langs": [lang, "en"]})
+            lines.append(dispatch_line(c, lang))
+            lines.append(dispatch_line(c, "en"))
+    try:
+        lines.append(dispatch_line(electrum.mnemonic_from_entropy("standard", rng.getrandbits(128), "en"), "en"))
+        lines.append(dispatch_line(electrum.mnemonic_from_entropy("segwit", rng.getrandbits(128), "es"), "es"))
+        lines.append(dispatch_line(electrum.old_mnemonic_from_hex_seed(common.rand_bytes(rng, 16).hex()), "en"))
+        sh = make_set({"secret": common.rand_bytes(rng, 16).hex(), "groups": [[1, 1]], "gt": 1, "pw": "",
+                       "ext": True, "seed": rng.getrandbits(32)})[0][0]
+        lines.append(dispatch_line(sh, "en"))
+        lines.append(dispatch_line(sh, "slip39"))
+    except BTClibValueError:
+        pass
+    ctx.stream("dispatch", lines)
